@@ -39,8 +39,29 @@ FINDINGS = {
 }
 
 
+def wrappers_keep_int64():
+    """TorchBackend._wrap_torch_func (behind np.less / greater / maximum ...) never narrows an integer result:
+    no torch.int32/int16/int8/uint8 and no .int()/.short()/.char()/.byte() inside it"""
+    import ast
+    from . import astlib
+    m = astlib.module("klongpy/backends/torch_backend.py")
+    f = astlib.find_func(astlib.find_class(m, "TorchBackend"), "_wrap_torch_func")
+    for n in ast.walk(f):
+        if isinstance(n, ast.Attribute) and n.attr in ("int32", "int16", "int8", "uint8", "short", "half"):
+            return False
+        if isinstance(n, ast.Call) and isinstance(n.func, ast.Attribute) and n.func.attr in ("int", "short", "char", "byte"):
+            return False
+    return True
+
+
 def generate():
-    return c05.generate("C08")
+    from . import astlib
+    try:
+        v, why = astlib.try_flag(wrappers_keep_int64)
+    except Exception as e:  # fail closed
+        v, why = False, repr(e)
+    return c05.generate("C08") + "Definition torch_wrappers_keep_int64 : bool := %s.%s\n" % (
+        astlib.coq_bool(bool(v)), "" if not why else "  (* %s *)" % str(why).replace("*)", "* )"))
 
 
 # ---------------------------------------------------------------- worker (runs under $VERIF_REPO)
@@ -49,9 +70,22 @@ def worker_nt(job):
     from klongpy.writer import kg_write
     kw = {"backend": "torch", "device": "cpu"} if job["backend"] == "torch" else {"backend": "numpy"}
     out = []
+    def one(k, stmt):
+        try:
+            v = k(stmt)
+            try:
+                text = kg_write(v, k._backend, display=False)
+            except TypeError:
+                text = kg_write(v, k._backend)
+            return ["ok", sx(c05.canon5(v)), text]
+        except Exception as e:  # noqa
+            return ["exc", type(e).__name__, str(e)[:80]]
     for prog in job["programs"]:
         k = KlongInterpreter(**kw)
         r = None
+        if prog and prog[0] == "@all":
+            out.append(["all", [one(k, st) for st in prog[1:]]])
+            continue
         try:
             for stmt in prog:
                 v = k(stmt)
@@ -254,8 +288,67 @@ def check_single(chk, items, rn, rt):
     return bad
 
 
+def remainder_programs():
+    """Remainder (a!b) and Integer-Divide (a:%b) with operands of either sign, scalars, vectors, reals"""
+    A = ["0-7", "7", "[-7 7 -8 8]", "[7 -7 10 -10]", "0-7.5", "7.5", "[-7.5 7.5 -2.5]"]
+    B = ["5", "0-5", "[5 -5 3 3]", "[3 -3 -5 5]", "2.5", "0-2.5", "3", "0-3"]
+    E = ["a!b", "a:%b", "{x!5}'a", "{x!-5}'a", "(a!b)+b*a:%b", "(0-7)!5", "7!-5", "(0-7):%2", "7:%-2", "a!3", "a!-3", "+/a!b", "(-a)!b"]
+    out = []
+    for a in A:
+        for b in B:
+            if a.startswith("[") and b.startswith("[") and a.count(" ") != b.count(" "):
+                continue
+            if ("." in a or "." in b):
+                es = ["a!b", "(-a)!b", "a!3"]
+            else:
+                es = E
+            for e in es:
+                out.append(["a::" + a, "b::" + b, e])
+    return out
+
+
+def reuse_programs():
+    """the operand of a scan / reduce / each / structural verb used AGAIN: in the same expression, read after the
+    statement, or the same literal text evaluated twice in one interpreter (parse cache) — every statement's result is
+    compared, so an operand overwritten in place shows up"""
+    out = []
+    binds = [("[5 1 2]", "[1 2 3]"), ("[[5 6] [1 2] [3 1]]", "2"), ("[5.5 1.0 2.0]", "[0.5 1.5 2.5]")]
+    verbs = [o + a for a in ("/", "\\") for o in "+-*%|&"] + ["|", "-", "_", "{x*2}'", "{-x}'", "<", ">", "2#", "1_", "#"]
+    for a, b in binds:
+        pre = ["@all", "a::" + a, "b::" + b]
+        for v in verbs:
+            out.append(pre + ["(" + v + "a)+a", "a"])
+            out.append(pre + ["a-(" + v + "a)", "a"])
+            out.append(pre + [v + "a", "a", v + "a", "a+0"])
+            out.append(pre + ["f::{" + v + "x}", "f(a)", "a", "f(a)"])
+            out.append(pre + ["a," + v + "a", "a"])
+        for e in ["a+b", "a*b", "a|b", "a-b", "a@0", "a,b", "a=b", "a<b"]:
+            out.append(pre + [e, "a", "b", e])
+    for lit in ["[5 1 2]", "[[5 6] [1 2] [3 1]]", "[5.5 1.0 2.0]"]:
+        for v in verbs:
+            out.append(["@all", v + lit, v + lit, v + lit])
+    return out
+
+
+BIG = ["2147483647", "2147483648", "3000000000", "1099511627776", "4294967296"]
+
+
+def bigint_programs():
+    """large integers combined with small-integer-valued intermediates computed on the INTERPRETER path (a literal
+    or non-compilable operand): truth values, sizes, grades, indexes.  Integer results are compared exactly:
+    both backends hold them as int64, nothing may wrap below 2^63"""
+    out = []
+    forms = ["B+[1 2 3]<2", "B*[1 2 3]<2", "([1 2 3]>1)|B", "B-[1 2 3]>2", "B+(|a)<2", "B*(|a)>1", "((|a)<2)+B", "((|a)>1)*B",
+             "B&B+(|a)>1", "B+#a", "B*#a", "B+<a", "B*>a", "B+(|a)=2", "B*(|a)=2", "B+a?2", "B+(|a)<|b", "B*(a,a)>2",
+             "+/B*(|a)<3", "B+{x<2}'a", "B*{x>1}'a", "(B+(|a)<2)-B", "B|(|a)<2", "(0-B)+(|a)>1", "(0-B)*(|a)>1", "B+_a%2", "B*_0.5+a%2"]
+    for big in BIG:
+        for f in forms:
+            out.append(["a::[1 2 3]", "b::[3 1 2]", f.replace("B", big)])
+    return out
+
+
 def programs(rng, tier):
-    progs = close_programs()
+    progs = close_programs() + remainder_programs() + bigint_programs()
     kinds = list(BIND)
     reps = 6 if tier == "quick" else 40
     flat = [k for k in kinds if not k.startswith("m2")]
@@ -376,11 +469,38 @@ def check_both(chk, rng, tier):
     """one pair of worker batches for the general differential and the T8.single family"""
     progs = programs(rng, tier)
     items = single_programs(rng, tier)
-    rn, rt = run_both(progs + [p for p, _ in items])
-    n = len(progs)
+    reuse = reuse_programs()
+    rn, rt = run_both(progs + [p for p, _ in items] + reuse)
+    n, m = len(progs), len(progs) + len(items)
     bad = check_differential(chk, progs, rn[:n], rt[:n])
     if bad is None:
-        bad = check_single(chk, items, rn[n:], rt[n:])
+        bad = check_single(chk, items, rn[n:m], rt[n:m])
+    if bad is None:
+        bad = check_reuse(chk, reuse, rn[m:], rt[m:])
+    return bad
+
+
+def check_reuse(chk, progs, rn, rt):
+    bad = None
+    for prog, a, b in zip(progs, rn, rt):
+        chk.count("reuse_programs")
+        stmts = prog[1:]
+        stmts = [s for s in stmts]
+        for st, x, y in zip(stmts, a[1], b[1]):
+            chk.count("evaluations")
+            if x[0] != "ok" or y[0] != "ok":
+                chk.count("reuse_not_both_return")
+                if x[0] != y[0]:
+                    break          # the interpreters' states may differ from here on
+                continue
+            why = compare_vals(parse_sx(x[1]), parse_sx(y[1]))
+            if why is None and compare_text(x[2], y[2]) == "different":
+                why = "kg_write text"
+            if why is not None:
+                if bad is None:
+                    bad = {"kind": why + " (operand reused)", "program": stmts, "at": st, "numpy": a[1], "torch": b[1]}
+                break
+            chk.count("reuse_steps_agree")
     return bad
 
 
